@@ -111,6 +111,14 @@ struct GenCfg {
   bool inline_insn = true;   // use `inline` as well as `call`
   bool multi_module = false; // spread functions over modules with import/export
   int min_funcs = 1;
+  int forward_calls_chance = 0;  // of 256: the callee is a function generated after the caller (no recursion through it)
+  int first_block_calls = 0;   // up to this many calls at the start of the first block (always executed)
+  int prologue_alloca_chance = 100;  // of 256
+  bool dump_allocas = false;   // the first words of every alloca block are copied to the buffer before the final ret
+  bool force_allocas = false;
+  bool force_calls = false;    // the per-case feature toggles may not switch calls off
+  bool multi_ret = false;      // early ret insns (several returns per function)
+  int ret_weight = 1;          // weight of the `leave the function` terminator
   bool prologue_alloca = false;  // some functions start with an alloca (a `top` alloca for the inliner)
   int call_weight = 3;         // weight of call insns among the instruction kinds
   bool wide_sigs = false;      // some inner functions take 7-14 arguments, mostly of one register kind
@@ -122,7 +130,7 @@ struct GenCfg {
 struct Features {
   bool irreducible = false, has_switch = false, jmpi = false, fp = false, ld = false, alloca = false, spill = false,
        call = false, ext = false, overflow = false, mem = false, indirect = false, inline_i = false, narrow = false,
-       blkarg = false, multi_res = false, memop = false, wide = false, fp8 = false;
+       blkarg = false, multi_res = false, memop = false, wide = false, fp8 = false, multi_ret = false;
 };
 
 struct FuncSig {
@@ -556,6 +564,9 @@ struct ProgGen {
     int callee = (int) cs.range (0, sigs.size () - 1);
     if (callee == 0) callee = (int) cs.range (0, sigs.size () - 1);  // entry is a less likely callee
     if (cfg.wide_sigs && !wide_idx.empty () && cs.chance (128)) callee = wide_idx[cs.range (0, wide_idx.size () - 1)];
+    // mostly acyclic call graphs keep link-time inlining within its growth budget (later call sites are still inlined)
+    if (cfg.forward_calls_chance > 0 && func_index + 1 < (int) sigs.size () && cs.chance (cfg.forward_calls_chance))
+      callee = (int) cs.range (func_index + 1, sigs.size () - 1);
     const FuncSig &s = sigs[callee];
     if (!sig_usable (s.res, s.args)) return;
     feat.call = true;
@@ -611,7 +622,7 @@ struct ProgGen {
   // ---- terminators
   int some_label () { return block_labels[cs.range (0, block_labels.size () - 1)]; }
   void gen_terminator (int next_label) {
-    int k = cs.weightedv ({4, 6, 3, cfg.fp ? 3 : 0, 2, (cfg.indirect && cfg.jmpi) ? 2 : 0, cfg.overflow ? 3 : 0, 1});
+    int k = cs.weightedv ({4, 6, 3, cfg.fp ? 3 : 0, 2, (cfg.indirect && cfg.jmpi) ? 2 : 0, cfg.overflow ? 3 : 0, cfg.ret_weight});
     switch (k) {
     case 0: f->add (MIR_JMP, {Op::L (some_label ())}); break;
     case 1: {  // integer compare and branch
@@ -690,8 +701,26 @@ struct ProgGen {
       f->add (MIR_JMP, {Op::L (cs.flip () ? next_label : some_label ())});
       break;
     }
-    default: f->add (MIR_JMP, {Op::L (exit_label)}); break;
+    default:
+      if (cfg.multi_ret && cs.chance (150)) {  // an early return: MIR_link merges all returns into one
+        feat.multi_ret = true;
+        f->insns.emplace_back (MIR_RET, ret_ops ());
+      } else
+        f->add (MIR_JMP, {Op::L (exit_label)});
+      break;
     }
+  }
+
+  std::vector<Op> ret_ops () {
+    std::vector<Op> rets;
+    for (int t : f->res) {
+      if (t == MIR_T_F) rets.push_back (Op::R (pick (fr)));
+      else if (t == MIR_T_D) rets.push_back (Op::R (pick (dr)));
+      else if (t == MIR_T_LD) rets.push_back (Op::R (pick (ldr)));
+      else if (type_size (t) <= 4 && !w32.empty () && cs.flip ()) rets.push_back (Op::R (pick (w32)));
+      else rets.push_back (Op::R (pick (w64)));
+    }
+    return rets;
   }
 
   // ---- a whole function
@@ -779,7 +808,7 @@ struct ProgGen {
     fn.add (MIR_LADDR, {Op::R (r_lab), Op::L (0)});
     fn.add (MIR_LADDR, {Op::R (r_lab2), Op::L (0)});
     // an alloca ahead of every label is what link-time inlining merges into the caller's frame
-    if (cfg.allocas && cfg.prologue_alloca && cs.chance (100)) gen_alloca ();
+    if (cfg.allocas && cfg.prologue_alloca && cs.chance (cfg.prologue_alloca_chance)) gen_alloca ();
     // block arguments: the callee owns a private copy of 16..32 bytes; fold it into registers
     for (int b : blk_args) {
       fn.add (MIR_MOV, {Op::R (pick (w64)), Op::M (MIR_T_I64, 0, b)});
@@ -810,12 +839,23 @@ struct ProgGen {
       fn.label (block_labels[b]);
       fn.add (MIR_SUB, {Op::R (r_fuel), Op::R (r_fuel), Op::I (1)});
       fn.add (MIR_BLE, {Op::L (exit_label), Op::R (r_fuel), Op::I (0)});
+      if (b == 0 && cfg.first_block_calls > 0)  // calls on the path every activation takes
+        for (int k = (int) cs.range (0, cfg.first_block_calls); k > 0; k--) gen_call ();
       int n = (int) cs.range (0, cfg.max_insns);
       for (int k = 0; k < n; k++) gen_insn ();
       gen_terminator (b + 1 < nblocks ? block_labels[b + 1] : exit_label);
     }
     // exit: dump a few registers into the buffer, return
     fn.label (exit_label);
+    if (cfg.dump_allocas)
+      for (size_t k = 0; k < allocas.size (); k++) {
+        int r = pick (w64);
+        int64_t off = (int64_t) (cs.range (0, 21) * 8);
+        fn.add (MIR_MOV, {Op::R (r), Op::M (MIR_T_I64, 0, allocas[k].reg)});
+        fn.add (MIR_MOV, {Op::M (MIR_T_I64, off, r_buf), Op::R (r)});
+        fn.add (MIR_MOV, {Op::R (r), Op::M (MIR_T_I64, 8, allocas[k].reg)});
+        fn.add (MIR_MOV, {Op::M (MIR_T_I64, off + 8, r_buf), Op::R (r)});
+      }
     int ndump = (int) cs.range (0, 4);
     for (int k = 0; k < ndump; k++) {
       int64_t off = (int64_t) (cs.range (0, 11) * 16);
@@ -826,15 +866,7 @@ struct ProgGen {
       else if (c == 3) fn.add (MIR_DMOV, {Op::M (MIR_T_D, off, r_buf), Op::R (pick (dr))});
       else fn.add (MIR_LDMOV, {Op::M (MIR_T_LD, 192 + (off & 0x30), r_buf), Op::R (pick (ldr))});
     }
-    std::vector<Op> rets;
-    for (int t : fn.res) {
-      if (t == MIR_T_F) rets.push_back (Op::R (pick (fr)));
-      else if (t == MIR_T_D) rets.push_back (Op::R (pick (dr)));
-      else if (t == MIR_T_LD) rets.push_back (Op::R (pick (ldr)));
-      else if (type_size (t) <= 4 && !w32.empty () && cs.flip ()) rets.push_back (Op::R (pick (w32)));
-      else rets.push_back (Op::R (pick (w64)));
-    }
-    fn.insns.emplace_back (MIR_RET, rets);
+    fn.insns.emplace_back (MIR_RET, ret_ops ());
     // irreducibility label: a block other than the first is a branch target from an earlier and a later block
     mod.add_func (fn);
     f = nullptr;
